@@ -11,7 +11,7 @@ compiled with ASan+UBSan:
      (UNSAFE): a crash or a disagreement it predicts is the recorded defect, anything else is a violation.
   B. walk level — random directory graphs (cycles, shared sub-directories) forged into images; rdsquashfs -d and
      sqfs2tar against `readTree` / `tarWalk` of the model (node count / LINK_LOOP / divergence).
-  C. tool level — images from the independent forge (tools/sqfs_forge.py) and from the real gensquashfs, mutated
+  C. tool level — images from the independent forge (tools/sqfs_forge_c05.py) and from the real gensquashfs, mutated
      field by field and byte-wise, through rdsquashfs (-l -s -c -x -d -u), sqfs2tar, sqfsdiff and the library-API
      driver harness/h_c05_api.c, each with a wall-clock limit and an RSS limit.  Oracle: normal exit (success or
      error): no sanitizer report, signal or timeout.
@@ -19,7 +19,7 @@ compiled with ASan+UBSan:
 import base64, json, os, re, shutil, struct, subprocess, time
 from concurrent.futures import ThreadPoolExecutor
 import vlib
-import sqfs_forge as F
+import sqfs_forge_c05 as F
 
 LEVEL = "proof"
 MODULE = "Sqfs.Props.C05"
@@ -807,7 +807,7 @@ def run(ctx):
         "not the byte contents they move",
         "the block decompressors enter the theorems only through the contract 'returns < 0 or at most outsize bytes' (zlib/xz/lz4/zstd themselves, "
         "the allocator and absolute running time are only exercised under ASan+UBSan with a wall-clock limit)",
-        "tools/sqfs_forge.py (independent image writer) and the classification of sanitizer reports by crash site are trusted"],
+        "tools/sqfs_forge_c05.py (independent image writer) and the classification of sanitizer reports by crash site are trusted"],
         assumptions=["MetaCodecOk / hcodec: do_block never reports more bytes than outsize", "block_size != 0 and max_size <= block_size at the call sites of get_block / get_fragment (sqfs_super_read enforces 4096..1048576)",
                      "resolve_path: the caller's path is a NUL-terminated C string"])
 
